@@ -6,4 +6,6 @@ import "github.com/q191201771/lal/pkg/rtsp"
 
 // stSetRtspWChan sets the write-queue size of RTSP command connections created from now on (verif hook
 // pkg/rtsp/verif_hooks_wchan.go); built only when tools/props/c15.py finds the hook in the tree.
-func stSetRtspWChan(n int) (int, bool) { return rtsp.VerifSetServerCommandSessionWriteChanSize(n), true }
+func stSetRtspWChan(n int) (int, bool) {
+	return rtsp.VerifSetServerCommandSessionWriteChanSize(n), true
+}
